@@ -8,6 +8,7 @@ use std::io::BufRead;
 mod util;
 mod c02;
 mod c03;
+mod c09;
 mod c20;
 
 fn main() {
@@ -16,6 +17,7 @@ fn main() {
     let f: fn(&Value) -> Value = match prop.as_str() {
         "C02" => c02::run_case,
         "C03" => c03::run_case,
+        "C09" => c09::run_case,
         "C20" => c20::run_case,
         _ => { eprintln!("usage: verif_harness <property id>"); std::process::exit(2) }
     };
